@@ -131,6 +131,7 @@ def run_one(module, R, keep_trace=False, watchdog=60.0):
     reclimit = sys.getrecursionlimit()
     try:
         seams.SINK.listener = None
+        seams._IN_NEXT[0] = 0  # pylint: disable=protected-access
         module.execute(R, ctx)
         out["status"] = "ok"
     except Violation as v:
